@@ -181,14 +181,16 @@ class HistoryProfile(StoreProfile):
     def gen(self, run, i):
         rng, m = run.rng, run.m
         if i == 0:
-            run.scratch["uni"] = self.plan_universe(run, run.store.clone(), run.params["n_entities"], mirror=True, data_p=0.0)
+            run.scratch["uni"] = self.plan_universe(run, run.store.clone(), run.params["n_entities"], mirror=True, data_p=0.0,
+                                                    leaf_p=1.0)   # the call alphabet is built around file Sids
         uni = run.scratch["uni"]
         if i < len(uni):
             return uni[i]
         if i - len(uni) >= run.params["n_ops"]:
             return None
-        if not run.store.listing(m.default_config):
-            return None
+        ents = run.store.listing(m.default_config)
+        if not any(m.is_leaf_type(m.natural_type(e)) for e in ents):
+            return None   # (after minimisation) no file left to build the alphabet around
         A, G = self.alphabet(run)
         r = rng.random()
         carry = run.scratch.get("carry") or []
